@@ -398,7 +398,8 @@ def jobs(tier, seed):
             keep = [c for c in j.checks if any(x in c["name"] for x in ("store", "load", "by-value"))]
             out.append(Job(j.name.replace("C08_", "C06_struct_"), j.source, keep, flags=j.flags, unwind=j.unwind, compare_logs=j.compare_logs, native=j.want_native))
     for j in C07.jobs("quick", seed):
-        keep = [c for c in j.checks if c["name"] in ("B32 cav long", "B32 cav ulong", "B32 cav short", "B32 cav llong")]
+        keep = [c for c in j.checks if c["name"] in ("B32 cav long", "B32 cav ulong", "B32 cav short", "B32 cav llong", "B32 k_store_arr_llong3", "B32 k_load_arr_llong3",
+                                                       "B32 k_store_elem_llong", "B32 k_store_arr_long3", "B32 k_load_arr_long3")]
         if keep:
             out.append(Job(j.name.replace("C07_", "C06_cav_"), j.source, keep, flags=j.flags, unwind=j.unwind, compare_logs=j.compare_logs, native=j.want_native))
     out.append(Job("C06_callback", '#include "C12_bm.inc"\n', [dict(name="callback long(long) argument and result", fn=C12.check_bm_long, kw=dict(k="k_bm_cb_long"), unwind=200)]))
